@@ -38,6 +38,8 @@ def write_crate(name, progs, unimock_feature=False, extra_deps=''):
     feats = ', features = ["unimock"]' if unimock_feature else ''
     if unimock_feature:
         extra_deps += '\nunimock = "0.6"'
+    if any('verif_marker' in p.source for p in progs):
+        extra_deps += f'\nverif_marker = {{ path = "{VERIF}/xeng/verif_marker" }}'
     open(os.path.join(d, 'Cargo.toml'), 'w').write(CARGO_TOML.format(repo=REPO, features=feats, extra_deps=extra_deps))
     shutil.copy(os.path.join(REPO, 'Cargo.lock'), os.path.join(d, 'Cargo.lock'))
     os.makedirs(os.path.join(d, '.cargo'))
